@@ -13,6 +13,19 @@
 #include <string_view>
 #include <ostream>
 
+#ifdef CTPG_VERIF
+namespace ctpg_verif
+{
+    struct access;
+    void bounds_fail(const char* where);    // defined by the verification harness, never constexpr
+    constexpr void check(bool cond, const char* where)
+    {
+        if (!cond)
+            bounds_fail(where);
+    }
+}
+#endif
+
 namespace ctpg
 {
 
@@ -155,6 +168,16 @@ namespace stdex
         constexpr size_type size() const { return current_size; }
         constexpr bool empty() const { return current_size == 0; }
         constexpr void reserve(size_type) const {};
+#if defined(CTPG_VERIF) && defined(CTPG_VERIF_BOUNDS)
+        constexpr const T& operator[](size_type idx) const { ::ctpg_verif::check(idx < N, "cvector::operator[] const"); return the_data[idx]; }
+        constexpr T& operator[](size_type idx) { ::ctpg_verif::check(idx < N, "cvector::operator[]"); return the_data[idx]; }
+        constexpr void push_back(const T& v) { ::ctpg_verif::check(current_size < N, "cvector::push_back"); the_data[current_size++] = v; }
+        constexpr void emplace_back(T&& v) { ::ctpg_verif::check(current_size < N, "cvector::emplace_back"); the_data[current_size++] = std::move(v); }
+        constexpr const T& front() const { return the_data[0]; }
+        constexpr T& front() { return the_data[0]; }
+        constexpr T& back() { ::ctpg_verif::check(current_size > 0 && current_size <= N, "cvector::back"); return the_data[current_size - 1]; }
+        constexpr const T& back() const { ::ctpg_verif::check(current_size > 0 && current_size <= N, "cvector::back const"); return the_data[current_size - 1]; }
+#else
         constexpr const T& operator[](size_type idx) const { return the_data[idx]; }
         constexpr T& operator[](size_type idx) { return the_data[idx]; }
         constexpr void push_back(const T& v) { the_data[current_size++] = v; }
@@ -163,12 +186,17 @@ namespace stdex
         constexpr T& front() { return the_data[0]; }
         constexpr T& back() { return the_data[current_size - 1]; }
         constexpr const T& back() const { return the_data[current_size - 1]; }
+#endif
         constexpr const_iterator begin() const { return const_iterator(the_data); }
         constexpr const_iterator end() const { return const_iterator(the_data + current_size); }
         constexpr iterator begin() { return iterator(the_data); }
         constexpr iterator end() { return iterator(the_data + current_size); }
         constexpr void clear() { current_size = 0; }
+#if defined(CTPG_VERIF) && defined(CTPG_VERIF_BOUNDS)
+        constexpr void pop_back() { ::ctpg_verif::check(current_size > 0, "cvector::pop_back"); current_size--; }
+#else
         constexpr void pop_back() { current_size--; }
+#endif
         constexpr iterator erase(iterator first, iterator last)
         {
             if (!(first < last))
@@ -1874,6 +1902,10 @@ private:
     static const bool generate_lexer = std::is_same_v<LexerUsage, use_generated_lexer>;
     using lexer_type = typename LexerUsage::type;
 
+#ifdef CTPG_VERIF
+    friend struct ::ctpg_verif::access;
+#endif
+
 public:
     constexpr parser(
         root_nterm_type grammar_root,
@@ -3507,6 +3539,9 @@ namespace regex
         }
 
     private:
+#ifdef CTPG_VERIF
+        friend struct ::ctpg_verif::access;
+#endif
         dfa<dfa_size> sm;
     };
 }
